@@ -500,12 +500,12 @@ def monitor(eng, line, out):
                 hclosed = hv is not None and hv["closed"] is True
                 hunknown = hv is not None and hv["closed"] is None
                 if r0 == "pending":
-                    fu["state"], fu["waker"], fu["woken"] = "pending", w, False
+                    fu["state"], fu["waker"], fu["woken"], fu["amb"] = "pending", w, False, False
                     if hclosed:
                         hit("C04:closed-handle-future", "poll of future %d on closed handle %d stays Pending" % (f, fu["h"]))
                         trig.add("closedfut")
                 else:
-                    was_pending_unwoken = fu["state"] == "pending" and not fu["woken"]
+                    was_pending_unwoken = fu["state"] == "pending" and (not fu["woken"] or fu.get("amb", False))
                     fu["state"] = "ready"
                     r1 = res[1] if len(res) > 1 else ""
                     if fu["recv"]:
@@ -561,9 +561,11 @@ def monitor(eng, line, out):
 
         # ---------------------------------------------------------------- wakes of this op, then C06
         for w in wakes:
-            for fu in F.values():
-                if fu["alive"] and fu["state"] == "pending" and fu["waker"] == w:
-                    fu["woken"] = True
+            hitl = [fu for fu in F.values() if fu["alive"] and fu["state"] == "pending" and fu["waker"] == w]
+            for fu in hitl:
+                fu["woken"] = True
+                # one waker shared by several pending futures: which of them the channel woke is unknown
+                fu["amb"] = len(hitl) > 1
         for recv in (True, False):
             pend = [fu for fu in F.values() if fu["alive"] and fu["state"] == "pending" and fu["recv"] == recv]
             if not pend or any(fu["woken"] for fu in pend):
